@@ -61,6 +61,8 @@ pub struct GenOpts {
     pub hidden_positionals: bool,
     /// a command of an adjacent chain may end with a typed word under `fallback`
     pub adjacent_cmd_default_word: bool,
+    /// `command(..).hide()`: a subcommand left out of the help is a subcommand all the same
+    pub hidden_cmds: bool,
 }
 
 impl GenOpts {
@@ -102,6 +104,7 @@ impl GenOpts {
             cmd_fallback: false,
             hidden_positionals: false,
             adjacent_cmd_default_word: false,
+            hidden_cmds: false,
         }
     }
     pub fn general() -> GenOpts {
@@ -142,6 +145,7 @@ impl GenOpts {
             cmd_fallback: false,
             hidden_positionals: false,
             adjacent_cmd_default_word: false,
+            hidden_cmds: false,
         }
     }
 }
@@ -1144,7 +1148,13 @@ impl<'a> Pool<'a> {
         }
         if want_cmd {
             let n = self.rng.range(1, 3);
-            let cmds: Vec<Spec> = (0..n).map(|_| self.command(depth - 1)).collect();
+            let mut cmds: Vec<Spec> = (0..n).map(|_| self.command(depth - 1)).collect();
+            if self.o.hidden_cmds && n > 1 && self.rng.chance(1, 4) {
+                let k = self.rng.below(n);
+                let c = cmds.remove(k);
+                let hid = self.id();
+                cmds.insert(k, Spec::wrap(W::Hide, hid, c));
+            }
             let a = Spec::Alt(cmds);
             let mut cf = if self.rng.chance(1, 4) {
                 Spec::wrap(W::Optional { catch: false }, self.id(), a)
